@@ -2,6 +2,7 @@ import Drivers.Common
 import RioModel.Model.PanicSlice
 import RioModel.Model.FfiNull
 import RioModel.Model.PanicTime
+import RioModel.Model.LogParse
 open Lean
 
 /-- entry points whose early exit is not visible in the return value (void / echoing functions): the harness
@@ -31,8 +32,43 @@ def loggerSeq : List String → (_installed _once : Bool) → Bool
     if s == "stderr" then loggerSeq rest true once                      -- if let Err(err) = … { log::error!(..) }
     else loggerSeq rest true true
 
+/-- the std parsers as the table of answers the real std gave (case field "std": text ↦ {"ip": text|null, "sock": [text, port]|null});
+a text the table does not know yields a sentinel address, which shows up in the comparison -/
+def stdOfTable (tbl : Json) : Rio.AddrParse.Std where
+  parseIp := fun t =>
+    match tbl.getObjVal? (String.ofList t) with
+    | .ok e => match e.getObjVal? "ip" with
+      | .ok (.str ip) => some ip
+      | _ => none
+    | .error _ => some ("<not in the std table: " ++ String.ofList t ++ ">")
+  parseSock := fun t =>
+    match tbl.getObjVal? (String.ofList t) with
+    | .ok e => match e.getObjVal? "sock" with
+      | .ok (.arr a) =>
+        match (a[0]?.bind fun x => (fromJson? x : Except String String).toOption),
+              (a[1]?.bind fun x => (fromJson? x : Except String Nat).toOption) with
+        | some ip, some n => some (ip, n)
+        | _, _ => none
+      | _ => none
+    | .error _ => none
+
+def asciiLower (s : List Char) : List Char := s.map fun c => if 'A' ≤ c ∧ c ≤ 'Z' then Char.ofNat (c.toNat + 32) else c
+
 def handle (j : Json) : Except String Json := do
   let fam ← Drv.str? j "family"
+  if fam == "addr_parse" then
+    let S := stdOfTable (← Drv.obj? j "std")
+    match Rio.AddrParse.parseAddr S (← Drv.str? j "s").toList with
+    | .ok ip port => return Json.mkObj [("m", Json.mkObj [("addr", Json.arr #[toJson ip, match port with | some p => toJson p | none => Json.null])])]
+    | .err => return Json.mkObj [("m", Json.mkObj [("addr", Json.null)])]
+  if fam == "log_ips" then
+    let S := stdOfTable (← Drv.obj? j "std")
+    let hs ← (← Drv.arr? j "headers").toList.mapM fun h => do
+      let a ← (fromJson? h : Except String (Array String))
+      if a.size != 2 then throw "header pair"
+      pure (a[0]!.toList, a[1]!.toList)
+    let r := Rio.LogParse.ips S asciiLower (← Drv.str? j "client_ip").toList hs
+    return Json.mkObj [("m", Json.mkObj [("ips", toJson r)])]
   if fam == "slice" then
     let bs ← Drv.unhex (← Drv.str? j "s")
     let from_ ← Drv.nat? j "from"
